@@ -172,6 +172,35 @@ M = [
      "        return (self._times_min + self._bin_count) * self._bin_width\n", ["C07"]),
     ("c07a_is_rising_allows_empty_bins", "_bin_utils.py",
      "    if np.any(bins[:, 0] >= bins[:, 1]):\n", "    if np.any(bins[:, 0] > bins[:, 1]):\n", ["C07"]),
+    ("c13e_coerce_takes_other_dtype", "histogram_base.py",
+     "            new_dtype = np.promote_types(self._dtype, other_dtype)\n", "            new_dtype = np.dtype(other_dtype)\n", ["C13"]),
+    ("c13e_eval_dtype_admits_bool", "histogram_base.py",
+     "        if dtype.kind in \"iu\":\n", "        if dtype.kind in \"iub\":\n", ["C13"]),
+    ("c13e_dtype_setter_unchecked", "histogram_base.py",
+     "    def dtype(self, value: DTypeLike) -> None:\n        self.set_dtype(value)\n", "    def dtype(self, value: DTypeLike) -> None:\n        self.set_dtype(value, check=False)\n", ["C13"]),
+    ("c13e_can_cast_reversed", "histogram_base.py",
+     "np.can_cast(self.dtype, value)", "np.can_cast(value, self.dtype)", ["C13"]),
+    ("c13e_check_default_off", "histogram_base.py",
+     "    def set_dtype(self, value: DTypeLike, *, check: bool = True) -> None:\n", "    def set_dtype(self, value: DTypeLike, *, check: bool = False) -> None:\n", ["C13"]),
+    ("c07b_pretty_candidates_include_3", "_bin_utils.py",
+     "    subscales = np.array([0.5, 1, 2, 2.5, 5, 10])\n", "    subscales = np.array([0.5, 1, 2, 3, 5, 10])\n", ["C07"]),
+    ("c07b_pretty_decade_rounded", "_bin_utils.py",
+     "    power = np.floor(np.log10(raw_width)).astype(int)\n", "    power = np.round(np.log10(raw_width)).astype(int)\n", ["C07"]),
+    ("c07b_pretty_farthest", "_bin_utils.py",
+     "    best_index = np.argmin(np.abs(np.log(subscales * (10.0**power) / raw_width)))\n    return (10.0**power) * subscales[best_index]\n",
+     "    best_index = np.argmax(np.abs(np.log(subscales * (10.0**power) / raw_width)))\n    return (10.0**power) * subscales[best_index]\n", ["C07"]),
+    ("c07b_quantile_fraction_not_percent", "binnings.py",
+     "        percentiles = np.asarray(q) * 100.0\n", "        percentiles = np.asarray(q)\n", ["C07"]),
+    ("c07b_quantile_one_edge_short", "binnings.py",
+     "        percentiles = np.linspace(qrange[0] * 100, qrange[1] * 100, bin_count + 1)\n",
+     "        percentiles = np.linspace(qrange[0] * 100, qrange[1] * 100, bin_count)\n", ["C07"]),
+    ("c07b_exponential_width_natural_log", "binnings.py",
+     "        range = (np.log10(data.min()), np.log10(data.max()))\n", "        range = (np.log10(data.min()), np.log(data.max()))\n", ["C07"]),
+    ("c07b_exponential_edges_not_geometric", "binnings.py",
+     "            log_bins = self._log_min + np.arange(self._bin_count + 1) * self._log_width\n",
+     "            log_bins = self._log_min * np.arange(self._bin_count + 1) + self._log_width\n", ["C07"]),
+    ("c07b_numpy_binning_ignores_range_start", "binnings.py",
+     "        edges = np.linspace(range[0], range[1], bin_count + 1)\n", "        edges = np.linspace(0, range[1], bin_count + 1)\n", ["C07"]),
 ]
 
 
